@@ -309,7 +309,7 @@ class HybridClass(metaclass=MetaHybridClass):
         dressed_kwargs, xo_kwargs = {}, {}
         for kk, vv in kwargs.items():
             if hasattr(vv, "_xobject"):  # vv is dressed
-                dressed_kwargs[kk] = vv
+                dressed_kwargs[self._rename.get(kk, kk)] = vv
                 xo_kwargs[self._inverse_rename.get(kk, kk)] = vv._xobject
             else:
                 xo_kwargs.update(self._dict_with_xo_names({kk: vv}))
